@@ -281,6 +281,26 @@ pub fn c13_native<G: AffineRepr>(variant: &str, seed: u64, model: HashMap<String
         let mut prover = Prover::new(&pc, &mut pt);
         let (V, _) = prover.commit(v1, r1);
         out.push((format!("set{}: Prover::commit = v*B + r*Bblind", i), V.into_group() == refc(v1, r1)));
+        if i == 0 {
+            // one prover object committing many pairwise different values, then earlier ones again
+            let mut pt2 = Transcript::new(b"c13-many");
+            let mut many = Prover::new(&pc, &mut pt2);
+            let mut bad = vec![];
+            let val = |j: u64| v1 + G::ScalarField::from(j * j + 1);
+            for j in 0..150u64 {
+                let (V, _) = many.commit(val(j), r1 + G::ScalarField::from(j));
+                if V.into_group() != refc(val(j), r1 + G::ScalarField::from(j)) {
+                    bad.push(j);
+                }
+            }
+            for j in [0u64, 1, 2, 63, 64, 65, 100, 127, 128, 129] {
+                let (V, _) = many.commit(val(j), r2);
+                if V.into_group() != refc(val(j), r2) {
+                    bad.push(1000 + j);
+                }
+            }
+            out.push((format!("one prover: 150 different commitments and 10 repeated values all equal v*B + r*Bblind (failing: {:?})", &bad[..bad.len().min(5)]), bad.is_empty()));
+        }
         let (V2, _) = prover.commit(v1 + G::ScalarField::from(3u64), r1);
         out.push((format!("set{}: second Prover::commit with the same blinding and another value", i), V2.into_group() == refc(v1 + G::ScalarField::from(3u64), r1)));
     }
